@@ -2,6 +2,7 @@
 EXTENDS DepHash
 H2 == <<"h1", "h2">>
 H3 == <<"h1", "h2", "h3">>
+RootOne == {"h1"}
 RootBoth == {"h1", "h2"}
 Init2 == [h \in {"h1", "h2"} |-> IF h = "h1" THEN 1 ELSE 2]
 Init3 == [h \in {"h1", "h2", "h3"} |-> IF h = "h1" THEN 1 ELSE IF h = "h2" THEN 2 ELSE 1]
